@@ -239,6 +239,40 @@ func (m *modeler) defaultMethod(e *env, meth *Method) *rt.Plan {
 	if toPtr {
 		p.Fn = "addr"
 	}
+	// a custom function or declared method for the struct pair itself is used in the update position as well: its
+	// result replaces the constructor's value (goverter looks existing conversions up before it assigns field-wise)
+	elemOf := func(x *space.Ty) *space.Ty {
+		if x.Under().K == space.Ptr {
+			return x.Under().Elem
+		}
+		return x
+	}
+	es, et := elemOf(s), elemOf(t)
+	hasCustom := false
+	if es.Under().K == space.Struct && et.Under().K == space.Struct && (su.K == space.Ptr || tu.K == space.Ptr) {
+		if _, exists := m.findExtendCtx(e.ctx, es, et); exists || m.findMethod(es, et) != nil {
+			hasCustom = true
+		}
+	}
+	if hasCustom {
+		replace := ""
+		switch {
+		case su.K == space.Ptr && tu.K == space.Ptr && e.set.DefaultUpdate:
+			replace = "ptr-replace"
+		case su.K == space.Ptr && tu.K != space.Ptr && e.set.UseZeroPtr && e.set.DefaultUpdate:
+			replace = "srcptr-replace"
+		case su.K == space.Struct && tu.K == space.Ptr:
+			replace = "val2ptr-replace"
+		}
+		if replace != "" {
+			in := m.pos(e, es, et)
+			if in == nil {
+				return nil
+			}
+			p.Ref, p.In = replace, in
+			return p
+		}
+	}
 	switch {
 	case su.K == space.Ptr && tu.K == space.Ptr && su.Elem.Under().K == space.Struct && tu.Elem.Under().K == space.Struct && e.set.DefaultUpdate:
 		e.updNext = true
